@@ -13,8 +13,13 @@ Additional guidance for this round: assume the crate is already being checked by
 EXTRA7 = """
 Further hint for this round (from the crate's own source, nothing else): earlier rounds concentrated on Directory, Allocator, resize_stream and the Stream buffer. Look elsewhere too: MiniChain / Chain seek+read+write arithmetic, header read/write and its validation, Sector / SectorInit / Sectors (sector offsets, version 3 vs 4 sector sizes, the 4096-byte V4 header padding), the Entries iterator (walk vs read_storage, depth handling), OpenOptions and builder methods, Drop impls, into_inner, trait methods that have default implementations (read_vectored, read_to_string, read_line, seek_relative, stream_position, write_fmt ...), Entry accessors, files at exactly 109/110 FAT sectors or a DIFAT sector boundary, offsets at 2^31 / 2^32, and differences between what `create` leaves in memory and what `open` rebuilds from the file.
 """
+EXTRA8 = """
+Round-8 note: by now the machinery also runs coverage-guided fuzzing (libFuzzer) over operation histories with the model as oracle, enumerates write faults around FAT/DIFAT-sector boundaries of 7 MB version-3 files (with retries and continued growth), corrupts files compositely (e.g. a file longer than its FAT covers plus a table cell pointing into that tail), opens readers that claim up to 2^64-1 bytes, grows version-4 files past 4 GiB on a sparse backend, and measures line coverage of the crate (about 95 % of src/ is executed by the checks). A defect it would still miss has to hide in a state that takes an unusual *combination* to reach, not merely a large size. Think about: interactions between two features that are each tested alone (e.g. a buffer-size option with a particular seek pattern after a failed call; a reopen in the middle of a particular cycle; metadata setters on an object whose sibling was just removed; strict vs permissive differences that only show for one specific tolerated deviation combined with a later mutation), values that are only special in one format version, and behaviour that depends on the ORDER of earlier operations rather than on the resulting state.
+"""
 if tag >= '7':
     extra = extra + EXTRA7
+if tag >= '8':
+    extra = extra + EXTRA8
 for pid in sys.argv[2:]:
     p = props[pid]
     text = f"Property {pid}: {p['title']}\n\nStatement: {p['statement']}\n\nQuantified over: {p['quantifier']['text']}\n\nCode anchors (files): {', '.join(p['anchors']['files'])}\n"
